@@ -9,6 +9,26 @@ CLAIMS = {
   text="Deductive proof, for all inputs, that every construction route of SafeLong (new, TryFrom<u64/i64/u128/i128/usize/isize>, From<narrow>, Deserialize on every serde integer event) yields a value inside [-(2^53-1), 2^53-1] and keeps the value, and accepts every in-range integer; text routes (from_str / PLAIN) are proved to construct only through `new` and are otherwise bounded (listed, not counted).",
   note="Trusted: rustc, Verus+z3, Kani+CBMC; i64::from_str; parametricity of the generic Deserialize impl over deserializers; struct re-declaration in the Verus unit (shape scan).",
   design="§4 C15"),
+ "C14": dict(
+  technique="Verus contracts + loop invariants on the verbatim DoubleOps impls for Option<T> and Vec<T> against lexicographic spec functions, generic lifting lemmas (T lawful => Option<T>, Vec<T> lawful, by induction); Kani loop-free harnesses over all f64 triples for DoubleOps-for-f64, Option<f64>, DoubleKey incl. a recording Hasher",
+  text="Proof for the runtime core: order/equality/hash laws for f64 (all bit patterns incl. NaN payloads, +-0), DoubleKey, Option<T> and Vec<T> of any length and nesting. Not decided: BTreeMap values, Vec hash beyond length 2 (bounded), which fields the generator decorates and what educe expands to.",
+  note="Trusted: rustc, Verus+z3, Kani+CBMC, educe expansion, generator attribute selection, vstd specs for slices/ranges; the f64 instance inside the Verus unit is external_body and discharged cross-engine by Kani.",
+  design="§4 C14"),
+ "C13": dict(
+  technique="Kani loop-free full-domain harnesses on the real any/{ser,de}.rs: scalar round-trip matrix for every integer width/floats/char/unit/Option, visitor-event identity against a recording serializer, coercions, per-step frame obligations of the Seq/Map serializers and deserializers",
+  text="Proof for every scalar type (all values, floats bitwise) that Any::new(v)?.deserialize_into()? == v, that `any` is the identity on serde scalar events and emits the same event as the original, the float-string coercions, and that each container step hands elements through unchanged and in order. Whole-container round trips, BTreeMap behaviour, enum views and JSON text are not decided. Found and fixed: i128/u128 could not be read back.",
+  note="Trusted: rustc, Kani+CBMC, serde_json, base64, std BTreeMap; structural induction from per-step frames to whole containers is argued, not mechanised; core::fmt::write stubbed on error paths.",
+  design="§4 C13"),
+ "C16": dict(
+  technique="Kani: complete loop-free harness over all 256 bytes for the bearer-token character table; bounded harnesses (strings <= 3-5 bytes) comparing is_valid / from_str / new / from_plain / Deserialize / Serialize with a recogniser written from the regex",
+  text="Bearer-token half only. Proof that the character table is exactly [A-Za-z0-9-._~+/]; every entry path agrees with ^[A-Za-z0-9\\-._~+/]+=*$ and renders back identically for all strings up to the stated bound (bounded, not counted as proved). Resource identifiers are NOT decided (regex crate).",
+  note="Trusted: rustc, Kani+CBMC; std trim_end_matches/Iterator::all beyond the bound; the resource-identifier half of the statement is outside the reach of both verifiers and is not covered.",
+  design="§4 C16"),
+ "C07": dict(
+  technique="Verus contracts on the verbatim UriBuilder::{push_literal,push_path_parameter_raw,push_query_parameter_raw,build} over an abstract byte-sequence view (assumed specs for BytesMut/Uri) + inductive counting lemmas; Kani complete harnesses for the percent-encode set over all ASCII, equality with the duplicated set in conjure-macros, per-call byte-level contracts through the real BytesMut",
+  text="Proof that every push appends exactly old ++ separator ++ [key ++ '='] ++ escape(value) for all pre-states and values, that the escape of any ASCII character is itself iff unreserved and %HH otherwise (so no value can introduce '/', '?', '#', '&', '=', '+', '%'), that the two copies of the encode set agree, and counting lemmas turning this into 'exactly one more segment/pair'. build() panicking above 65534 bytes is a recorded known finding. Server-side decoding beyond one character and the ToPlain wrappers are not decided.",
+  note="Trusted: rustc, Verus+z3, Kani+CBMC; assumed specs of bytes::BytesMut and http::Uri::from_maybe_shared; percent-encoding's per-character concatenation for longer values; form_urlencoded.",
+  design="§4 C07"),
 }
 
 NA = {
@@ -48,7 +68,7 @@ def main():
         "setup_cmd": "./setup.sh",
         "hooks": {"guard": "none (no hooks: /repo is only read; contracts are attached to scratch copies on every run; harness modules are #[cfg(kani)])",
                   "enable": "n/a - checks rsync /repo's working tree to a scratch directory, append #[cfg(kani)] harness modules and kani::ensures attributes there, and extract functions byte-for-byte into Verus units",
-                  "baseline_off_cmd": "cd /repo && cargo test --workspace --no-fail-fast --offline",
+                  "baseline_off_cmd": "cd /repo && cargo test --workspace --no-fail-fast --offline --lib --bins --tests",
                   "source_commits": [], "add_only": True},
         "engines": [
             {"name": "verus", "path": "/usr/local/bin/verus", "serves_properties": sorted(CLAIMS), "kind_free_text": "SMT-based deductive verifier; functions extracted verbatim by vx on every run"},
